@@ -139,7 +139,8 @@ def build_corpus(tier, rng):
                     add(it, "explicit")
 
     # the integer type is the discriminant type however #[repr] is WRITTEN: several hints in one attribute, several attributes, any order
-    forms = lambda rp: [["C, %s" % rp], ["%s, C" % rp], ["C", rp], [rp, "C"], ["align(8)", rp], [rp, "align(4)"], ["%s, align(2)" % rp]]   # noqa: E731
+    forms = lambda rp: [["C, %s" % rp], ["%s, C" % rp], ["C", rp], [rp, "C"], ["align(8)", rp], [rp, "align(4)"], ["%s, align(2)" % rp], ["align(4), %s" % rp],
+                        ["C, align(2), %s" % rp], ["align(2)", "C, %s" % rp]]   # noqa: E731
     for rp in ("u8", "i16", "u64", "isize"):
         lo, hi = RANGES[rp]
         for fi, form in enumerate(forms(rp)):
